@@ -126,6 +126,12 @@ Definition form_of_sx (x : sx) : option form :=
         | [SL xs; SL ys] => match vals_of_sx xs, vals_of_sx ys with Some a, Some b => Some (FEach2 a b) | _, _ => None end
         | _ => None
         end else
+      if is_tag "eachleft" t then match rest with [a; b] => match val_of_sx 1000 a, val_of_sx 1000 b with Some x, Some y => Some (FEachLeft x y) | _, _ => None end | _ => None end else
+      if is_tag "eachright" t then match rest with [a; b] => match val_of_sx 1000 a, val_of_sx 1000 b with Some x, Some y => Some (FEachRight x y) | _, _ => None end | _ => None end else
+      if is_tag "overn" t then match rest with [a; b] => match val_of_sx 1000 a, val_of_sx 1000 b with Some x, Some y => Some (FOverN x y) | _, _ => None end | _ => None end else
+      if is_tag "scann" t then match rest with [a; b] => match val_of_sx 1000 a, val_of_sx 1000 b with Some x, Some y => Some (FScanN x y) | _, _ => None end | _ => None end else
+      if is_tag "eachpair" t then option_map FEachPair (vals_of_sx rest) else
+      if is_tag "scan" t then option_map FScan (vals_of_sx rest) else
       if is_tag "staged" t then option_map FStaged (stages_of_sx rest) else
       if is_tag "stagedeach" t then
         match rest with
